@@ -23,7 +23,7 @@ def strip_generics(path):
     i = 0
     n = len(path)
     while i < n:
-        if path.startswith("::<", i):
+        if path.startswith("::<", i) and not path.startswith("::<impl ", i):
             depth = 0
             j = i + 2
             while j < n:
@@ -116,6 +116,15 @@ def place_fields(place):
             else:
                 out.append((norm(adt), name))
     return out
+
+
+def _proj_sig(pr):
+    k = pr["k"]
+    if k == "field":
+        return ("field", norm(pr.get("adt", "")), pr.get("variant"), pr.get("name", str(pr["i"])))
+    if k == "downcast":
+        return ("downcast", pr.get("variant"))
+    return (k,)
 
 
 def place_has_deref(place):
@@ -472,7 +481,7 @@ class Body:
         deref = place_has_deref(place)
         if not place["proj"]:
             return base
-        return ("place", base, fields, deref)
+        return ("place", base, fields, deref, tuple(_proj_sig(pr) for pr in place["proj"]))
 
     def _local_expr(self, n, depth):
         if 1 <= n <= self.arg_count:
@@ -545,6 +554,41 @@ class Body:
         return subject, targets, t["otherwise"], names
 
 
+_CONV = {
+    "<T as core::convert::Into<U>>::into": "<%s as core::convert::From<%s>>::from",
+    "<T as core::convert::TryInto<U>>::try_into": "<%s as core::convert::TryFrom<%s>>::try_from",
+}
+
+
+def _resolve_conversions(raw_body, known):
+    """`x.into()` resolves to the blanket impl; step through to the local From/TryFrom impl."""
+    for blk in raw_body["blocks"]:
+        t = blk["term"]
+        if t["k"] != "call":
+            continue
+        r = t.get("resolved")
+        if r in _CONV and len(t.get("gargs", [])) == 2:
+            src, dst = t["gargs"]
+            cands = [_CONV[r] % (dst, src)]
+            # inherent-style printing used for impls on foreign types: crate::module::<impl Tr<S> for D>::f
+            for cand in cands:
+                if norm(cand) in known:
+                    t["resolved_via"] = r
+                    t["resolved"] = cand
+                    t["resolved_crate"] = known[norm(cand)]
+                    break
+            else:
+                tr = "TryFrom" if "TryInto" in r else "From"
+                m = "try_from" if "TryInto" in r else "from"
+                tail = "<impl core::convert::%s<%s> for %s>::%s" % (tr, src, dst, m)
+                for k, cr in known.items():
+                    if k.endswith(tail):
+                        t["resolved_via"] = r
+                        t["resolved"] = k
+                        t["resolved_crate"] = cr
+                        break
+
+
 class Facts:
     def __init__(self, directory):
         self.dir = directory
@@ -553,12 +597,19 @@ class Facts:
         self.adts = {}
         self.consts = {}
         self.pointer_bits = 64
+        raw_bodies = []
         for crate, fname in CRATES.items():
             p = os.path.join(directory, fname)
             with open(p) as f:
                 d = json.load(f)
             self.crates[crate] = d
             self.pointer_bits = d.get("pointer_bits", 64)
+            for b in d["bodies"]:
+                raw_bodies.append(b)
+        known = {norm(b["path"]): b["crate"] for b in raw_bodies}
+        for b in raw_bodies:
+            _resolve_conversions(b, known)
+        for crate, d in self.crates.items():
             for b in d["bodies"]:
                 body = Body(b)
                 key = body.path
